@@ -1211,6 +1211,39 @@ def run_c04(ctx, chk):
     chk.instance('R-PLT', short(draw), 'pending wrap + autowrap off: the character overwrites the last column(s)', n_pw > 0 and not bad,
                  detail='; '.join(sorted(set(bad))[:2]) or '%d iteration paths in that state' % n_pw, span=prog.bodies[draw].span,
                  what='; '.join(sorted(set(bad))[:2]) or 'no iteration path with pending wrap and autowrap off was found')
+    # must-store: a character of width 1 or 2 is stored (its own text, in the cell at the cursor); a
+    # width-2 character additionally stores an empty placeholder in the next cell when there is one
+    bad = []
+    n_print = 0
+    for s in segs:
+        st = s['st']
+        pre, evs = g.seg_events(dict(kind='backedge', st=st, func=draw, head=s['head']))
+        ws = [(k, v) for k, v in st.vn.items() if isinstance(k, tuple) and k and k[0] == 'width' and isinstance(v, NumV)]
+        if len(ws) != 1:
+            continue
+        wk, w = ws[0]
+        eid = st.vn.get(('widthopt',) + wk[1:])
+        if eid is None or st.vn.get(('tagof', eid)) != 1 or eng.prove_le(st, NumV(None, 1, w.ty), w) is not True:
+            continue
+        n_print += 1
+        stores = [ev for ev in evs if ev[0] == 'map.insert' and ev[-1] in funcs and len(ev[1]) == 3 and isinstance(ev[3], StructV)]
+        own = [ev for ev in stores if isinstance(ev[3].fields.get('data'), StrV) and isinstance(ev[3].fields['data'].prov, tuple)
+               and ev[3].fields['data'].prov[:1] == ('char',) and (len(ev[3].fields['data'].prov) < 2 or ev[3].fields['data'].prov[1] == wk[1])]
+        if not own:
+            bad.append('a printable character (width >= 1) is not stored in any cell')
+            continue
+        if eng.prove_cmp(st, 'eq', w, NumV(None, 2, w.ty)) is True:
+            col = own[0][2]
+            cols = get(eng, st, 'columns')
+            if isinstance(col, NumV):
+                ph = [ev for ev in stores if isinstance(ev[3].fields.get('data'), StrV) and ev[3].fields['data'].known == ''
+                      and isinstance(ev[2], NumV) and eng.prove_cmp(st, 'eq', ev[2], NumV(col.sym, col.k + 1, 'u32')) is True]
+                # no placeholder only when there is no next cell
+                if not ph and eng.prove_le(st, cols, NumV(col.sym, col.k + 1, 'u32')) is not True:
+                    bad.append('a double-width character can be stored without the empty placeholder although the next cell exists')
+    chk.instance('R-MUSTFOOT', short(draw), 'printable characters are stored (wide ones with their placeholder)', n_print > 0 and not bad,
+                 detail='; '.join(sorted(set(bad))) or '%d iteration paths with a printable character' % n_print, span=prog.bodies[draw].span,
+                 what='; '.join(sorted(set(bad))) or 'no iteration path with a printable character was found')
     # only a character of display width 0 is joined to the previous cell: on every iteration path that
     # rewrites the text of an existing cell, the width of the drawn character was measured and is 0
     bad = []
